@@ -262,6 +262,8 @@ def extract(src, kind, name, impl=None, nth=0):
         for (k, nm, h, body, end) in items:
             if k == 'impl' and nm is not None and rx.search(nm):
                 impl_ranges.append((body, end, nm))
+            elif k == 'trait' and nm is not None and body is not None and rx.search('trait ' + nm):
+                impl_ranges.append((body, end, 'trait ' + nm))
         if not impl_ranges:
             raise ExtractError('impl block matching %r not found' % impl)
     cands = []
